@@ -13,6 +13,7 @@ package main
 import (
 	"bytes"
 	"crypto/sha256"
+	"encoding/binary"
 	"encoding/hex"
 	"errors"
 	"fmt"
@@ -118,12 +119,15 @@ type pair struct{ k, v []byte }
 type inst struct {
 	flavour string // map | mapa (non-copying deserializers) | set
 	store   kvstore.KVStore
+	db      kvstore.KVStore // the database below the view (for `peek`)
+	realm   []byte          // the realm of the view inside db
 	m       amap
 	s       aset
 
 	want      map[string][]byte // the plain map model
 	committed map[string][]byte // want at the last Commit (empty before the first)
 	commits   int
+	commitRoot [32]byte // Root() when the last Commit returned
 	muts      int  // state-changing calls so far (for the non-triviality rule)
 	tainted   bool // reopened with un-committed changes: the property does not speak about it any more
 }
@@ -435,6 +439,7 @@ func (ss *session) exec(op string) string {
 			return "bad-op"
 		}
 		in := &inst{flavour: f[2], store: mapdb.NewMapDB(), want: map[string][]byte{}, committed: map[string][]byte{}}
+		in.db = in.store
 		in.reopen()
 		ss.insts[idx] = in
 
@@ -471,7 +476,7 @@ func (ss *session) exec(op string) string {
 			}
 		}
 		ss.realms[d] = append(ss.realms[d], realm)
-		in := &inst{flavour: f[2], store: view, want: map[string][]byte{}, committed: map[string][]byte{}}
+		in := &inst{flavour: f[2], store: view, db: db, realm: clone(realm), want: map[string][]byte{}, committed: map[string][]byte{}}
 		in.reopen()
 		ss.insts[idx] = in
 		ss.r.Count("instance-over-realm-view")
@@ -722,11 +727,74 @@ func (ss *session) execOn(in *inst, idx int, f []string) string {
 		}
 		in.commits++
 		in.committed = copyMap(in.want)
+		in.commitRoot = in.root()
 		if check {
 			ss.checkProbe(in, "commit")
 		}
 
 		return "ok"
+	case "peek":
+		// the persistent layout, read from the database below the view at absolute keys: the raw keys below
+		// realm+{0} in the store's order, the size cell realm+{3} (uint64, little endian), whether the root
+		// cell realm+{2} exists, whether there are trie records below realm+{1}
+		at := func(b byte) []byte { return append(clone(in.realm), b) }
+		var raw []string
+		var rawBytes [][]byte
+		if err := in.db.IterateKeys(at(0), func(key kvstore.Key) bool {
+			raw = append(raw, hx.Hex(key[len(in.realm)+1:]))
+			rawBytes = append(rawBytes, clone(key[len(in.realm)+1:]))
+
+			return true
+		}); err != nil {
+			return "err"
+		}
+		size, sizeOK := "-", false
+		var sizeN int64
+		if b, err := in.db.Get(at(3)); err == nil {
+			if len(b) != 8 {
+				ss.fail("layout", "peek", in, fmt.Sprintf("the size cell holds %d bytes", len(b)))
+
+				return "err"
+			}
+			sizeN, sizeOK = int64(binary.LittleEndian.Uint64(b)), true
+			size = strconv.FormatInt(sizeN, 10)
+		}
+		rootB, rerr := in.db.Get(at(2))
+		root := "no"
+		if rerr == nil {
+			root = "yes"
+		}
+		nodes := 0
+		if err := in.db.IterateKeys(at(1), func(kvstore.Key) bool { nodes++; return true }); err != nil {
+			return "err"
+		}
+		ns := "0"
+		if nodes > 0 {
+			ns = "+"
+		}
+		if check {
+			if len(rawBytes) != len(in.want) {
+				ss.fail("layout", "peek", in, fmt.Sprintf("%d raw keys below realm+{0}, the plain map holds %d keys", len(rawBytes), len(in.want)))
+			}
+			for _, k := range rawBytes {
+				if _, has := in.want[string(k)]; !has {
+					ss.fail("layout", "peek", in, fmt.Sprintf("raw key %x below realm+{0} is not in the plain map", k))
+				}
+			}
+			if sizeOK && sizeN != int64(len(in.want)) || !sizeOK && len(in.want) != 0 {
+				ss.fail("layout", "peek", in, fmt.Sprintf("size cell realm+{3} = %s, the plain map holds %d keys", size, len(in.want)))
+			}
+			if (rerr == nil) != (in.commits > 0) {
+				ss.fail("layout", "peek", in, fmt.Sprintf("root cell realm+{2} present = %v after %d commits", rerr == nil, in.commits))
+			} else if rerr == nil && !bytes.Equal(rootB, in.commitRoot[:]) {
+				ss.fail("layout", "peek", in, "root cell realm+{2} does not hold the Root() of the last Commit")
+			}
+			if (nodes > 0) != (len(in.committed) > 0) {
+				ss.fail("layout", "peek", in, fmt.Sprintf("%d trie records below realm+{1}, the last Commit flushed %d keys", nodes, len(in.committed)))
+			}
+		}
+
+		return fmt.Sprintf("peek raw=[%s] size=%s root=%s nodes=%s", strings.Join(raw, " "), size, root, ns)
 	case "restored":
 		b := in.restored()
 		if check && b != (in.commits > 0) {
@@ -984,7 +1052,9 @@ func (g *gen) readOp(i int) string {
 		}
 
 		return fmt.Sprintf("stream %d %d", i, stop)
-	case x < 78:
+	case x < 74:
+		return fmt.Sprintf("peek %d", i)
+	case x < 80:
 		return fmt.Sprintf("restored %d", i)
 	default:
 		return fmt.Sprintf("root %d", i)
@@ -1249,7 +1319,7 @@ func genSession(rng *hx.Rng, clusters []mine.Cluster, nOps int) []string {
 		}
 	}
 	for i := 0; i < nInst; i++ {
-		ops = append(ops, fmt.Sprintf("root %d", i), fmt.Sprintf("size %d", i), fmt.Sprintf("stream %d 0", i))
+		ops = append(ops, fmt.Sprintf("root %d", i), fmt.Sprintf("size %d", i), fmt.Sprintf("stream %d 0", i), fmt.Sprintf("peek %d", i))
 	}
 
 	return ops
